@@ -4,15 +4,22 @@ from __future__ import annotations
 import collections
 from pathlib import Path
 
+import os
+import shutil
+import tempfile
+import types
+
 import corr_config as CC
+import corr_load as CL
 from common import rng
 
 ID = "C14"
 PROP_FILES = ["C14"]
 RULE = (
-    "correspondence: match_mcp / match_after_mcp / match_after and parse_config on generated mixed rule texts. "
+    "correspondence: match_mcp / match_after_mcp / match_after and parse_config on generated mixed rule texts; load_config (the layer merge) on generated directory layouts. "
     "search: paired config texts that differ only in the lines of one family (deleted, duplicated, reordered): every output of the other family "
-    "(match_mcp + check_mcp_tool envelope for tool names; analyze verdict+reason for shell commands) must be identical; no matching mcp rule => {}."
+    "(match_mcp + check_mcp_tool envelope for tool names; analyze verdict+reason for shell commands) must be identical; no matching mcp rule => {}. "
+    "The same paired edits are made inside each of the three config layers (user / project .dippy / $DIPPY_CONFIG) and read back through the real load_config."
 )
 TRUSTED = ["T1 correspondence harness (corr_config.py)", "CPython fnmatch modelled by hand (Model/Glob.lean)"]
 ASSUMES = ["hook-level routing of MCP tool names is covered by C06/C12 (Model/Hook.lean)"]
@@ -27,6 +34,7 @@ def correspondence(ctx):
         CC.corr_after_mcp(m, rng("c14-am"), ctx.scale(500, 20000) * k),
         CC.corr_parse(m, rng("c14-parse"), ctx.scale(800, 30000) * k),
         CC.corr_fnmatch(m, rng("c14-fn"), ctx.scale(3000, 100000) * k),
+        CL.corr_load(m, rng("c14-load"), ctx.scale(150, 3000) * k, faults=False),
     ]
 
 
@@ -114,7 +122,91 @@ def search(ctx):
                 samples.append({"config": text, "tool": tool, "decision": got})
         if len(vios) >= 5:
             break
+    if len(vios) < 5:
+        layered_search(ctx, r, ctx.scale(300, 10000) * (5 if ctx.broken else 1), stats, vios)
     return {"violations": vios[:5], "evaluations": stats["evaluations"], "distinct_nontrivial": stats["distinct"], "stats": dict(stats), "samples": samples, "oracle": "family-independence by paired config edits; mcp last-match; no match => {}"}
+
+
+class Layers:
+    """user / project / env files in a scratch tree, read through the real load_config"""
+
+    def __init__(self):
+        self.root = tempfile.mkdtemp(prefix="dippy-verif-c14-")
+        self.home = os.path.join(self.root, "home")
+        self.proj = os.path.join(self.root, "w")
+        os.makedirs(os.path.join(self.home, ".dippy"))
+        os.makedirs(self.proj)
+        self.env_value = os.path.join(self.root, "env.conf")
+
+    def load(self, texts):
+        from dippy.core import config as C
+
+        for path, t in zip((os.path.join(self.home, ".dippy", "config"), os.path.join(self.proj, ".dippy"), self.env_value), texts):
+            if t is None:
+                if os.path.exists(path):
+                    os.unlink(path)
+            else:
+                open(path, "w").write(t)
+        lay = types.SimpleNamespace(home=self.home, env_value=self.env_value if texts[2] is not None else None)
+        with CL.layout_env(lay):
+            return C.load_config(Path(self.proj))
+
+    def cleanup(self):
+        shutil.rmtree(self.root, ignore_errors=True)
+
+
+def layered_search(ctx, r, n, stats, vios):
+    """the same family-only edits, made inside each config layer"""
+    from dippy import dippy as D
+    from dippy.core.analyzer import analyze
+
+    L = Layers()
+    try:
+        for _ in range(n):
+            layers = [mixed_text(r)[: r.randint(0, 4)] if r.chance(0.8) else None for _ in range(3)]
+
+            def edit(fam_is_mcp):
+                out = []
+                for ls in layers:
+                    if ls is None:
+                        out.append(None)
+                        continue
+                    keep = [l for l in ls if is_mcp_line(l) != fam_is_mcp]
+                    fam = [l for l in ls if is_mcp_line(l) == fam_is_mcp]
+                    r.shuffle(fam)
+                    fam = fam[: r.randint(0, len(fam))]
+                    if r.chance(0.4):
+                        fam.append(r.pick(["deny-mcp *", "allow-mcp mcp__*", "ask-mcp mcp__github__*"]) if fam_is_mcp else r.pick(["deny *", "ask mcp__*", "allow git *", "deny-redirect **", "allow mcp__github__*"]))
+                    out.append(keep[: len(keep) // 2] + fam + keep[len(keep) // 2 :])
+                return out
+
+            def text(ls):
+                return None if ls is None else "".join(l + "\n" for l in ls)
+
+            base_t = [text(x) for x in layers]
+            mcp_t = [text(x) for x in edit(True)]
+            sh_t = [text(x) for x in edit(False)]
+            cfg, cfg_m, cfg_s = L.load(base_t), L.load(mcp_t), L.load(sh_t)
+            stats["layered_configs"] += 1
+            stats["layers=%d" % sum(x is not None for x in layers)] += 1
+            for ws in [r.pick(CC.CMD_WORDS) for _ in range(3)] + [["mcp__fs__read_file"], ["mcp__x"]]:
+                if any(" " in w or "*" in w for w in ws):
+                    continue
+                cmd = " ".join(ws)
+                a, b = analyze(cmd, cfg, Path(CWD)), analyze(cmd, cfg_m, Path(CWD))
+                stats["evaluations"] += 2
+                if (a.action, a.reason) != (b.action, b.reason):
+                    vios.append({"input": {"command": cmd, "layers_user_project_env": base_t, "layers_edited": mcp_t, "cwd": CWD}, "observed": {"verdict": [a.action, a.reason], "after_mcp_edit": [b.action, b.reason]}, "required": "editing *-mcp lines (in any layer) never changes a shell verdict", "oracle": "shell-ignores-mcp"})
+            for tool in (r.pick(TOOLS) for _ in range(4)):
+                D.MODE = "claude"
+                a, b = D.check_mcp_tool(tool, cfg), D.check_mcp_tool(tool, cfg_s)
+                stats["evaluations"] += 2
+                if a != b:
+                    vios.append({"input": {"tool": tool, "layers_user_project_env": base_t, "layers_edited": sh_t}, "observed": {"envelope": a, "after_shell_edit": b}, "required": "editing shell rule lines (in any layer) never changes an MCP verdict", "oracle": "mcp-ignores-shell"})
+            if len(vios) >= 5:
+                break
+    finally:
+        L.cleanup()
 
 
 def matches_finding(entry, v) -> bool:
@@ -131,6 +223,20 @@ def replay(payload) -> int:
     from dippy.core.analyzer import analyze
 
     inp = payload["input"]
+    if "layers_user_project_env" in inp:
+        L = Layers()
+        try:
+            c1, c2 = L.load(inp["layers_user_project_env"]), L.load(inp["layers_edited"])
+        finally:
+            L.cleanup()
+        if "tool" in inp:
+            D.MODE = "claude"
+            a, b = D.check_mcp_tool(inp["tool"], c1), D.check_mcp_tool(inp["tool"], c2)
+            print("envelope:", a, "| edited:", b, "| required:", payload.get("required"))
+            return 1 if a != b else 0
+        a, b = analyze(inp["command"], c1, Path(inp.get("cwd", CWD))), analyze(inp["command"], c2, Path(inp.get("cwd", CWD)))
+        print("verdict:", a, "| edited:", b, "| required:", payload.get("required"))
+        return 1 if (a.action, a.reason) != (b.action, b.reason) else 0
     if "tool" in inp:
         a = D.check_mcp_tool(inp["tool"], C.parse_config(inp["config"]))
         b = D.check_mcp_tool(inp["tool"], C.parse_config(inp.get("config_edited", inp["config"])))
